@@ -159,8 +159,26 @@ fn sampled(rng: &mut Rng) -> Scenario {
         sc.max_steps = Some(rng.int(1, 400));
     }
     if entry == Entry::High {
-        if rng.bool(0.6) {
+        let r = rng.f();
+        if r < 0.5 {
             sc.events = vec![probe_event()];
+        } else if r < 0.8 {
+            // real event functions (some terminal) next to the faults: the root search then works on
+            // interpolants of steps that saw a non-finite or absurd derivative, and on states that
+            // blow up (thresholds far above the start are crossed on the way to infinity)
+            let ne = rng.int(1, 3);
+            let span = sc.span();
+            for _ in 0..ne {
+                let c = sc.x0 + (sc.xend - sc.x0) * rng.f();
+                let kind = match rng.int(0, 3) {
+                    0 => EvKind::Time { c },
+                    1 => EvKind::Sin { w: rng.uni(2.0, 30.0) / span, phi: c },
+                    2 => EvKind::State { i: rng.int(0, dim - 1), c: sc.y0[0] * rng.uni(0.2, 1.2) },
+                    _ => EvKind::State { i: rng.int(0, dim - 1), c: rng.sign() * rng.logu(1.0, 1e12) },
+                };
+                let terminal = if rng.bool(0.3) { Some(rng.int(1, 2)) } else { None };
+                sc.events.push(EventSpec { kind, scale: rng.sign() * rng.logu(0.1, 10.0), dir: *rng.pick(&[Dir::All, Dir::Pos, Dir::Neg]), terminal });
+            }
         }
         if rng.bool(0.25) {
             let n = rng.int(1, 30);
